@@ -10,7 +10,8 @@ from hszinc.sortabledict import SortableDict
 from hszinc.metadata import MetadataObject
 
 OBS = '@OBS@'          # 'list' (C14) or 'id' (C15)
-MAXN = 3
+MAXN = 3          # largest pre-state any harness builds
+IDXN = @MAXN@      # index arguments range over -(IDXN+1)..(IDXN+1) (pop / del g[i]: -(MAXN+1)..(MAXN+1))
 
 def conc(x, lo, hi):
     for d in range(lo, hi + 1):
@@ -167,7 +168,7 @@ MK = 'g, m = build(n, (r0, r1, r2), (10, 11, 12), how); m0 = list(m)'
 def gen(maxn, nkind):
     H = []
 
-    def add(name, extra_sig, extra_pre, body, what, timeout=60, split=None, upto=None):
+    def add(name, extra_sig, extra_pre, body, what, timeout=100, split=None, upto=None):
         if split:
             for tag, cond in split:
                 add('%s_%s' % (name, tag), extra_sig, (extra_pre + ' and ' if extra_pre else '') + cond, body, what + ' [%s]' % cond, timeout)
@@ -178,7 +179,8 @@ def gen(maxn, nkind):
                 MK, '\n'.join('    ' + l for l in body.strip('\n').split('\n')))
             H.append(xhair.Harness('%s_n%d' % (name, j), src, timeout=timeout, what=what + ' [grid of %d rows]' % j))
 
-    IDX = '-MAXN - 1 <= i <= MAXN + 1'
+    IDX = '-IDXN - 1 <= i <= IDXN + 1'
+    IDX3 = '-MAXN - 1 <= i <= MAXN + 1'
     # version given / default / auto-upgraded through metadata or through a row that is gone again: deleting operations keep it
     VC = 'g, m = build(n, (r0, r1, r2), (10, 11, 12), how, vcfg); m0 = list(m); v0 = str(g.version)\n'
     add('observe_only', 'vcfg: int', '0 <= vcfg <= 4',
@@ -191,15 +193,16 @@ def gen(maxn, nkind):
         'row = mkrow(rk, 7)\nreturn step(g, m, lambda: g.insert(i, row), lambda: m.insert(i, row), m0)', 'insert(i, row)')
     add('setitem', 'i: int, rk: int', IDX + ' and 0 <= rk < NKIND',
         'row = mkrow(rk, 7)\nreturn step(g, m, lambda: g.__setitem__(i, row), lambda: m.__setitem__(i, row), m0)', 'g[i] = row')
-    add('delitem', 'i: int', IDX,
+    add('delitem', 'i: int', IDX3,
         'return step(g, m, lambda: g.__delitem__(i), lambda: m.__delitem__(i), m0)', 'del g[i]', upto=3)
-    add('delslice', 'a: int, b: int, an: bool, bn: bool, st: int, vcfg: int', '-2 <= a <= MAXN and -2 <= b <= MAXN and 0 <= st <= 4 and 0 <= vcfg <= 4',
-        VC + 'sl = slice(None if an else conc(a, -2, MAXN), None if bn else conc(b, -2, MAXN), [None, 1, 2, -1, -2][conc(st, 0, 4)])\n'
-        'return step(g, m, lambda: g.__delitem__(sl), lambda: m.__delitem__(sl), m0, single=False)', 'del g[a:b:step] (bounds present or omitted, step None / 1 / 2 / -1 / -2)')
-    add('pop', 'i: int, noarg: bool, vcfg: int', IDX + ' and 0 <= vcfg <= 4 and (n <= 2 or vcfg == 0) and (not noarg or i == 0)',
+    add('delslice', 'a: int, b: int, an: bool, bn: bool, st: int, vcfg: int', '-2 <= a <= IDXN and -2 <= b <= IDXN and 0 <= st <= 4 and 0 <= vcfg <= 4 and (vcfg == 0 or (an and bn))',
+        VC + 'sl = slice(None if an else conc(a, -2, IDXN), None if bn else conc(b, -2, IDXN), [None, 1, 2, -1, -2][conc(st, 0, 4)])\n'
+        'return step(g, m, lambda: g.__delitem__(sl), lambda: m.__delitem__(sl), m0, single=False)', 'del g[a:b:step] (bounds present or omitted, step None / 1 / 2 / -1 / -2)',
+        split=[('s%d' % k, 'st == %d' % k) for k in range(5)])
+    add('pop', 'i: int, noarg: bool, vcfg: int', IDX3 + ' and 0 <= vcfg <= 4 and (n <= 2 or vcfg == 0) and (not noarg or i == 0)',
         VC + 'if noarg:\n    return step(g, m, lambda: g.pop(), lambda: m.pop(), m0)\n'
         'return step(g, m, lambda: g.pop(i), lambda: m.pop(i), m0)', 'pop() / pop(i)', upto=3)
-    add('remove', 'j: int, rk: int', '0 <= j <= MAXN and 0 <= rk < NKIND',
+    add('remove', 'j: int, rk: int', '0 <= j <= IDXN and 0 <= rk < NKIND',
         'row = m[j] if j < len(m) else mkrow(rk, 99)\n'
         'def mrem():\n    for t in range(len(m)):\n        if m[t] is row or m[t] == row:\n            del m[t]\n            return None\n    raise ValueError()\n'
         'return step(g, m, lambda: g.remove(row), mrem, m0)', 'remove(row)')
@@ -207,16 +210,16 @@ def gen(maxn, nkind):
         'rows = [mkrow(rk, 7), mkrow(rk2, 8)][:conc(k, 0, 2)]\n'
         'if iadd:\n    def f():\n        gg = g\n        gg += rows\n        return None if gg is g else "rebound"\n'
         '    return step(g, m, f, lambda: m.extend(rows), m0, single=False)\n'
-        'return step(g, m, lambda: g.extend(rows), lambda: m.extend(rows), m0, single=False)', 'extend(rows) / g += rows')
+        'return step(g, m, lambda: g.extend(rows), lambda: m.extend(rows), m0, single=False)', 'extend(rows) / g += rows', split=[('ext', 'not iadd'), ('iadd', 'iadd')])
     add('reverse_clear', 'clear: bool, vcfg: int', '0 <= vcfg <= 4',
         VC + 'if clear:\n    return step(g, m, lambda: g.clear(), lambda: m.clear(), m0, single=False)\n'
         'return step(g, m, lambda: g.reverse(), lambda: m.reverse(), m0, single=False)', 'reverse() / clear()')
-    add('nondict', 'op: int, i: int, bad: int', '0 <= op <= 3 and -1 <= i <= MAXN and 0 <= bad <= 5',
+    add('nondict', 'op: int, i: int, bad: int', '0 <= op <= 3 and -1 <= i <= IDXN and 0 <= bad <= 5',
         'junk = [None, [("id", "x")], "row", SortableDict([("id", "x")]), MetadataObject([("id", "q")]), 7][conc(bad, 0, 5)]\n'
         'op = conc(op, 0, 3)\n'
         'f = [lambda: g.append(junk), lambda: g.insert(i, junk), lambda: g.__setitem__(0, junk), lambda: g.extend([junk])][op]\n'
         'r = outcome(f)\nreturn r == ("raises", "TypeError") and unchanged(g, m0) and observe(g, m0)', 'non-dict rows are refused with TypeError, grid unchanged')
-    add('two_steps', 'rk: int, i: int, j: int, op2: int', '0 <= rk < NKIND and ' + IDX + ' and -MAXN - 1 <= j <= MAXN + 1 and 0 <= op2 <= 2',
+    add('two_steps', 'rk: int, i: int, j: int, op2: int', '0 <= rk < NKIND and ' + IDX + ' and -IDXN - 1 <= j <= IDXN + 1 and 0 <= op2 <= 2',
         'row = mkrow(rk, 7)\n'
         'if not step(g, m, lambda: g.insert(i, row), lambda: m.insert(i, row), m0):\n    return False\n'
         'm1 = list(m)\nop2 = conc(op2, 0, 2)\n'
@@ -238,7 +241,8 @@ def gen(maxn, nkind):
         'elif op == 2:\n    ok = step(tgt, tm, lambda: tgt.__setitem__(0, row), lambda: tm.__setitem__(0, row), tm0)\n'
         'else:\n    ok = step(tgt, tm, lambda: tgt.insert(0, row), lambda: tm.insert(0, row), tm0)\n'
         'return ok and observe(oth, om)',
-        'a derived grid (slice / filter result) and its parent stay independent lists with their own id lookup', timeout=120)
+        'a derived grid (slice / filter result) and its parent stay independent lists with their own id lookup', timeout=200,
+        split=[('d%d' % k, 'sk == %d' % k) for k in range(5)])
     return H
 
 
@@ -260,7 +264,7 @@ def run_obs(chk, obs):
     if not quick:
         for x in hs:
             x.timeout *= 8
-    pre = PRELUDE.replace('@OBS@', obs).replace('@NKIND@', str(nkind))
+    pre = PRELUDE.replace('@OBS@', obs).replace('@NKIND@', str(nkind)).replace('@MAXN@', str(maxn))
     symrun.run_harnesses(chk, pre, hs)
     return chk.finish(rule='one symx exploration per (operation, pre-state size): native execution of the real Grid code, every branch on a symbolic value decided by z3, exhaustive work list; pre-state rows, index state and all arguments symbolic; '
                            'grid and list model run in lock step and are compared through the public observations; non-trivial = non-vacuous '
